@@ -175,6 +175,7 @@ type Runner struct {
 	expectHash string
 	lastEvents []abci.Event
 	haltPre    *Snap
+	curBlock   *Block
 
 	// C19
 	branchMode    bool
@@ -460,7 +461,13 @@ func (r *Runner) runBlock(b *Block, shadow bool) {
 	// the snapshot before the block is taken at the previous block's header
 	preCtx := w.CtxAt(w.Height, w.Now, nil)
 	pre := w.TakeSnap(preCtx)
+	r.curBlock = b
 	dt := r.resolveDt(b.Dt, pre)
+	if dt >= 24*time.Hour {
+		r.Fault("F5_chain_halt_over_1_day")
+	} else if b.Dt.To != "" {
+		r.Fault("F5_block_time_aimed_at_deadline")
+	}
 	w.Height++
 	w.Now = w.Now.Add(dt)
 	r.BlockTimes[w.Height] = w.Now
@@ -709,8 +716,26 @@ func (r *Runner) finishStep(st *Step) {
 		st.Events = r.lastEvents
 	}
 	st.Slashes = r.orderSlashes(newSlashes(st.Pre, st.Post), st.Events)
-	for range st.Slashes {
+	for _, so := range st.Slashes {
 		r.Fault("slash_reached_hooks")
+		switch {
+		case st.Kind == "slash":
+			r.Fault("F1F2_direct_slash_and_jail")
+		case st.Kind == "begin" && r.curBlock != nil && evidenceNames(r, r.curBlock)[so.Val]:
+			r.Fault("F1_double_sign_evidence_slash")
+		case st.Kind == "begin":
+			r.Fault("F2_downtime_slash")
+		}
+	}
+	if st.Kind == "op" && st.Res != nil && st.Res.OK {
+		switch k := st.ROp.Op.K; {
+		case k == "donate":
+			r.Fault("F8_unsolicited_transfer")
+		case strings.HasPrefix(k, "gov_"):
+			r.Fault("F9_reconfiguration_in_flight")
+		case strings.HasPrefix(k, "n_") || k == "create_validator" || k == "unjail":
+			r.Fault("F10_validator_set_churn")
+		}
 	}
 	r.StepName = st.Name
 	r.Stats.Steps++
@@ -1389,3 +1414,11 @@ func (r *Runner) orderSlashes(obs []SlashObs, events []abci.Event) []SlashObs {
 }
 
 func (r *Runner) storeDigestsAt() map[string]string { return r.storeDigests() }
+
+func evidenceNames(r *Runner, b *Block) map[string]bool {
+	out := map[string]bool{}
+	for _, e := range b.Evidence {
+		out[r.W.valByIdx(e.Val).ValAddr.String()] = true
+	}
+	return out
+}
